@@ -470,7 +470,9 @@ DATE_TENORS = [[('h', 12), ('h', 12)], [('b', 1)], [('d', 2), ('b', -1)], [('h',
 
 AWARE_ZONES = [datetime.timezone(datetime.timedelta(hours=-5)), datetime.timezone(datetime.timedelta(hours=9)), datetime.timezone.utc]
 AWARE_TENORS = [[('b', n)] for n in (-2, -1, 0, 1, 3)] + [[('h', 3), ('b', 1)], [('b', -1), ('h', 30)], [('d', 1), ('b', 2)], [('n', 90)]]
-NAMED_SEQS = [['spot', '1m'], ['on', '2d'], ['1d', 'tn', '1w'], ['SN', '-1b'], ['1m', 'spot'], ['o/n', 't/n']]
+NAMED_SEQS = [['spot', '1m'], ['on', '2d'], ['1d', 'tn', '1w'], ['SN', '-1b'], ['1m', 'spot'], ['o/n', 't/n'],
+              # plain integers (days) among string bumps: applied in position, like every other bump
+              ['1b', 1], ['1y', 1], [1, '1b'], ['1m', -2, '1b'], [2, '-1b', 3]]
 
 
 def check_compound_intraday(case):
@@ -530,7 +532,7 @@ def check_compound_intraday(case):
         # ---- named tenors as one of several bumps of one call (separate arguments / one list): every bump is applied, left to right
         t = DAYS[i]
         for seq in NAMED_SEQS:
-            parts = [(('b', NAMED[x.lower()]) if x.lower() in NAMED else (x[-1], int(x[:-1]))) for x in seq]
+            parts = [(('int', x) if isinstance(x, int) else ('b', NAMED[x.lower()]) if x.lower() in NAMED else (x[-1], int(x[:-1]))) for x in seq]
             e = fold(t, parts)
             if e is None:
                 continue
